@@ -550,7 +550,7 @@ func main() {
 	driver.Main(driver.Property{
 		ID:        "C16",
 		Level:     "exploration",
-		Rule:      "seeded timelines (inter-arrival gaps from {0, d/4, d−ε, d, d+ε, 3d} with bursts; durations 1/5/20(/40) ms; ending complete/error/none; jitter or yields at the timer-goroutine hook points) through Delay, Timer, Interval, IntervalWithInitial (initial d/2, d, 2d, 0), RangeWithInterval, RepeatWithInterval, Timeout, ThrottleTime, SampleTime, BufferWithTime, BufferWithTimeOrCount, and Unsubscribe / context cancellation at a random instant. Monotonic timestamps are taken by the harness at emission and inside the recording observer. ONLY lower bounds and order/count relations are asserted (Delay: delivery − emission ≥ d, order kept, nothing lost at completion; periodic sources: value k not before (k+1)·p / initial + k·p, values 0,1,2…; Timeout: error not before d after the emission that armed it; ThrottleTime: two deliveries ≥ w apart measured from the first one's emission, first value delivered; SampleTime: m-th delivery not before (m+1)·p, output an increasing subsequence; time buffers: increasing subsequence, complete at completion, sizes ≤ count, m-th time-triggered buffer not before (m+1)·p; silence (≤1 in-flight value) after stop). Non-trivial: ≥1 timestamped event.",
+		Rule:      "seeded timelines (inter-arrival gaps from {0, d/4, d−ε, d, d+ε, 3d} with bursts; durations 1/5/20(/40) ms; ending complete/error/none; jitter or yields at the timer-goroutine hook points) through Delay, Timer, Interval, IntervalWithInitial (initial d/2, d, 2d, 0), RangeWithInterval, RepeatWithInterval, Timeout, ThrottleTime, SampleTime, BufferWithTime, BufferWithTimeOrCount, and Unsubscribe / context cancellation at a random instant. Monotonic timestamps are taken by the harness at emission and inside the recording observer. ONLY lower bounds and order/count relations are asserted (Delay: delivery − emission ≥ d, order kept, nothing lost at completion; periodic sources: value k not before (k+1)·p / initial + k·p, values 0,1,2…; Timeout: error not before d after the emission that armed it; ThrottleTime: two deliveries ≥ w apart measured from the first one's emission, first value delivered; SampleTime: m-th delivery not before (m+1)·p, output an increasing subsequence; time buffers: increasing subsequence, complete at completion, sizes ≤ count, m-th time-triggered buffer not before (m+1)·p; silence (≤1 in-flight value) after stop). Non-trivial: ≥1 timestamped event. Timeout additionally with an observer that dwells 0..2·d inside Next (timeout-slow); Timeout oracle: the deadline that fired was armed at subscription or when the observer returned from value j, and arm+d ≤ start of the observer's callback for value j+1. Periodic sources: the same observable value is subscribed twice, each subscription counts from 0 and from its own start.",
 		Assume:    []string{"machine load can only delay deliveries; no upper bound on time is asserted"},
 		Plan:      plan,
 		Run:       runCase,
